@@ -118,15 +118,25 @@ def _run_one(sim, params):
             hr = b"".join(ndef.message_encoder([ndef.HandoverRequestRecord("1.2", 4711 + i)]))
             hs = b"".join(ndef.message_encoder([ndef.HandoverSelectRecord("1.2")]))
 
-            def with_filler(first_cls, total, tag):
+            def filler(size, tag):
+                return ndef.Record("unknown", "", bytes(((j * 3 + tag) & 255) for j in range(size - (3 if size - 3 < 256 else 6))))
+
+            def with_filler(first_cls, total, tag, frag):
                 recs = [first_cls]
                 base = len(b"".join(ndef.message_encoder(recs)))
                 if total > base + 8:
-                    recs.append(ndef.Record("unknown", "", bytes(((j * 3 + tag) & 255) for j in range(
-                        total - base - (3 if total - base - 3 < 256 else 6)))))
+                    k_frag = sim.pick("ho.align.k", [1, 1, 2])
+                    if sim.chance("ho.aligned", 0.4) and k_frag * frag - base >= 3 and total - k_frag * frag >= 3:
+                        # a record ends exactly where a fragment ends: the part received so far is a sequence of
+                        # complete records, only the message-end flag tells that more is to come
+                        al = recs + [filler(k_frag * frag - base, tag), filler(total - k_frag * frag, tag + 1)]
+                        if len(b"".join(ndef.message_encoder(al[:2]))) == k_frag * frag:
+                            sim.probe("handover.record_ends_at_fragment_end")
+                            return b"".join(ndef.message_encoder(al))
+                    recs.append(filler(total - base, tag))
                 return b"".join(ndef.message_encoder(recs))
-            requests.append({"kind": "handover", "octets": with_filler(ndef.HandoverRequestRecord("1.2", 4711 + i), n, i),
-                             "response": with_filler(ndef.HandoverSelectRecord("1.2"), rn, 70 + i)})
+            requests.append({"kind": "handover", "octets": with_filler(ndef.HandoverRequestRecord("1.2", 4711 + i), n, i, c2s),
+                             "response": with_filler(ndef.HandoverSelectRecord("1.2"), rn, 70 + i, s2c)})
     if kind == "put":
         big = max(len(r["octets"]) for r in requests)
         rel = sim.wpick("put.limit", [(5, "under"), (2, "at"), (3, "over")])
